@@ -69,11 +69,11 @@ struct PnEngine : public Engine
    bool clean[NN];        // the tree rooted at i was settled by `gpt i` and nothing touched it since
    bool inSweep; int sweepKind; uint64_t sweepNow, sweepLower; bool disturbed, structural;
    std::set<uint32_t> sweepTree; std::vector<uint32_t> called;
-   // F25 (see corpus/C20/pn-inprogress-invalidate.ops): a re-entrant action took the standing request away from a node
-   // whose own GetPulseTimeAux was still in progress (the asked node itself or one of its ancestors).  Decided from the scripts and the public
-   // parent pointers alone (never from what the code under test then does).
-   std::vector<uint32_t> gStack; bool inG; bool trigger;
-   std::string tag() const {return trigger ? " [F25: after a re-entrant invalidate/attach of a node whose GetPulseTimeAux was in progress]" : "";}
+   // A node whose standing request is taken away while its own GetPulseTimeAux is in progress (the asked node itself or one
+   // of its ancestors: decided from the scripts and the public parent pointers alone) is asked once more in the same call;
+   // if that happens again during the re-evaluation, the node keeps the invalidation for the next cycle: it reports time zero
+   // and is asked after the next PulseAux visit.  pend[i] = node i may be in that state.
+   std::vector<uint32_t> gStack; bool inG, ipInval; bool pend[NN];
 
    PnEngine() {for (uint32_t i=0; i<NN; i++) nodes[i] = NULL; reset();}
    ~PnEngine() {for (uint32_t i=0; i<NN; i++) delete nodes[i];}
@@ -85,9 +85,10 @@ struct PnEngine : public Engine
       for (uint32_t i=0; i<NN; i++)
       {
          nodes[i] = new ScriptNode(this, i);
-         req[i] = NEVER; gq[i].clear(); pq[i].clear(); cur[i] = NEVER; vm[i] = false; clean[i] = false;
+         req[i] = NEVER; gq[i].clear(); pq[i].clear(); cur[i] = NEVER; vm[i] = false; clean[i] = false; pend[i] = false;
       }
-      log.clear(); inSweep = false; disturbed = false; structural = false; inG = false; trigger = false; gStack.clear();
+      inG = false; ipInval = false; gStack.clear();
+      log.clear(); inSweep = false; disturbed = false; structural = false;
    }
 
    int idOf(const PulseNode * p) const {for (uint32_t i=0; i<NN; i++) if (nodes[i] == p) return (int)i; return -1;}
@@ -114,6 +115,7 @@ struct PnEngine : public Engine
       if (isAnc(c, p)) return false;
       clean[rootOf(c)] = false; clean[rootOf(p)] = false; clean[c] = false;
       if (nodes[c]->GetPulseParent()) vm[c] = false;
+      pend[c] = false;   // a newly attached child waits in NEEDSRECALC
       nodes[p]->PutPulseChild(nodes[c]);
       return true;
    }
@@ -123,7 +125,7 @@ struct PnEngine : public Engine
       for (uint32_t i=0; i<NN; i++) if (parentOf(i) == (int)n) {vm[i] = false; clean[i] = false;}
       delete nodes[n];
       nodes[n] = new ScriptNode(this, n);
-      req[n] = NEVER; gq[n].clear(); pq[n].clear(); cur[n] = NEVER; vm[n] = false;
+      req[n] = NEVER; gq[n].clear(); pq[n].clear(); cur[n] = NEVER; vm[n] = false; pend[n] = false;
    }
    void runActs(const std::vector<Act> & acts)
    {
@@ -137,7 +139,7 @@ struct PnEngine : public Engine
             case 'd': disturbed = structural = true; doDetach(a.a); break;
             case 'a': disturbed = structural = true; (void) doAttach(a.a, (uint32_t)a.b); break;
          }
-         if (inG) for (size_t k=0; k<gStack.size(); k++) if (!vm[gStack[k]]) trigger = true;
+         if (inG) for (size_t k=0; k<gStack.size(); k++) if (!vm[gStack[k]]) {ipInval = true; pend[gStack[k]] = true;}
       }
    }
 
@@ -153,7 +155,7 @@ struct PnEngine : public Engine
       if (prev != cur[id]) oracleFail("GetPulseTime: args.GetScheduledTime()=" + u64s(prev) + " is not the previous request " + u64s(cur[id]) + " of node " + u64s(id));
       if (vm[id]) oracleFail("GetPulseTime: node " + u64s(id) + " asked again although its request stands");
       called.push_back(id);
-      vm[id] = true;
+      vm[id] = true; pend[id] = false;
       std::vector<Act> acts; if (!gq[id].empty()) {acts = gq[id].front(); gq[id].pop_front();}
       gStack.clear(); {uint32_t x = id; for(;;) {gStack.push_back(x); const int p = parentOf(x); if (p < 0) break; x = (uint32_t)p;}}
       inG = true; runActs(acts); inG = false;
@@ -187,7 +189,8 @@ struct PnEngine : public Engine
    {
       const std::set<uint32_t> before = subtree(r);
       std::set<uint32_t> mustAsk; for (std::set<uint32_t>::const_iterator it = before.begin(); it != before.end(); ++it) if (!vm[*it]) mustAsk.insert(*it);
-      log.clear(); called.clear(); inSweep = true; sweepKind = 0; sweepNow = now; disturbed = false; sweepTree = before;
+      std::set<uint32_t> pendStart; for (std::set<uint32_t>::const_iterator it = before.begin(); it != before.end(); ++it) if ((pend[*it])&&(*it != r)) pendStart.insert(*it);
+      log.clear(); called.clear(); inSweep = true; sweepKind = 0; sweepNow = now; disturbed = false; ipInval = false; sweepTree = before;
       // every request that stood at the start of the sweep or is made during it (a re-entrant invalidate can
       // supersede an answer within one sweep; `min` is only ever lowered, so a superseded request may be reported: see F26 in the report)
       sweepLower = NEVER; for (std::set<uint32_t>::const_iterator it = before.begin(); it != before.end(); ++it) if (cur[*it] < sweepLower) sweepLower = cur[*it];
@@ -201,7 +204,7 @@ struct PnEngine : public Engine
          const uint32_t n = *it;
          if (nodes[n]->GetScheduledPulseTime() != cur[n]) oracleFail("gpt: GetScheduledPulseTime() of node " + u64s(n) + " is not its last request");
          // never late: the wake-up time is at or before every standing request in the tree
-         if (vm[n]) {if (mn > cur[n]) oracleFail("gpt: wake-up time " + u64s(mn) + " is LATER than the request " + u64s(cur[n]) + " of node " + u64s(n) + tag());}
+         if (vm[n]) {if (mn > cur[n]) oracleFail("gpt: wake-up time " + u64s(mn) + " is LATER than the request " + u64s(cur[n]) + " of node " + u64s(n));}
          else allValid = false;
       }
       // never spuriously early: it is the request of some node that was in the tree during the sweep
@@ -209,18 +212,24 @@ struct PnEngine : public Engine
       //  with re-entrant invalidate/attach/detach: also the requests that stood at the start or were superseded during the sweep)
       std::set<uint32_t> both = before; both.insert(after.begin(), after.end());
       for (std::set<uint32_t>::const_iterator it = both.begin(); it != both.end(); ++it) if (cur[*it] < lower) lower = cur[*it];
-      if (mn < lower) oracleFail("gpt: wake-up time " + u64s(mn) + " is EARLIER than the minimum " + u64s(lower) + " of the requested times" + tag());
+      // a node invalidated again during its second evaluation asks to be visited at once (time zero) -- also one that has left the tree meanwhile
+      for (std::set<uint32_t>::const_iterator it = both.begin(); it != both.end(); ++it) if (!vm[*it]) lower = 0;
+      if (ipInval) lower = 0;
+      if (mn < lower) oracleFail("gpt: wake-up time " + u64s(mn) + " is EARLIER than the minimum " + u64s(lower) + " of the requested times");
       if (!disturbed)
       {
          // every node without a standing request is asked, exactly once; nobody else is
          std::set<uint32_t> asked(called.begin(), called.end());
          if (asked.size() != called.size()) oracleFail("gpt: a node was asked twice");
-         if (asked != mustAsk) oracleFail("gpt: the set of nodes asked is not the set of nodes without a standing request" + tag());
+         for (std::set<uint32_t>::const_iterator it = asked.begin(); it != asked.end(); ++it) if (mustAsk.count(*it) == 0) oracleFail("gpt: node " + u64s(*it) + " was asked although its request stands");
+         for (std::set<uint32_t>::const_iterator it = mustAsk.begin(); it != mustAsk.end(); ++it) if ((asked.count(*it) == 0)&&(pendStart.count(*it) == 0)) oracleFail("gpt: node " + u64s(*it) + " has no standing request and was NOT asked");
          clean[r] = true;
       }
       else for (uint32_t i=0; i<NN; i++) clean[i] = false;
-      // reasked: before the next wait every attached node has a standing request again
-      if (!allValid) oracleFail("gpt: a node is left without a standing request" + tag());
+      // reasked: before the next wait every attached node has a standing request again -- or there is no wait:
+      // a node that was invalidated once more during its re-evaluation keeps the invalidation for the next cycle,
+      // and the reported wake-up time makes that cycle start at once
+      if ((!allValid)&&(mn > now)) oracleFail("gpt: a node is left without a standing request, yet the wake-up time " + u64s(mn) + " lets the event loop wait");
       return "min " + u64s(mn) + log;
    }
    std::string doPulse(uint32_t r, uint64 now)
@@ -325,7 +334,6 @@ struct PnEngine : public Engine
    {
       uint32_t other = r.chance(1,2) ? self : r.below(n);
       const uint32_t k = r.below(structural ? 10 : 7);
-      if ((forG)&&(k >= 4)) for (int tries=0; (tries<8)&&(isAnc(other, self)); tries++) other = r.below(n);   // mostly stay clear of F25
       if (k < 4) return "r" + u64s(r.chance(3,4) ? self : other) + "." + u64s(genTime(r, now));
       if (k < 7) return "i" + u64s(other) + "." + u64s(r.below(2));
       if (k < 8) return "d" + u64s(other);
@@ -344,7 +352,6 @@ struct PnEngine : public Engine
    virtual void gen(Rng & r, const Tier & tier, FILE * out)
    {
       const uint32_t ncases = tier.thorough ? 9000 : 300;
-      uint32_t dropped = 0;
       for (uint32_t cs=0; cs<ncases; cs++)
       {
          reset();
@@ -431,8 +438,6 @@ struct PnEngine : public Engine
             if (now >= NEVER-1) now = 200;   // the clock of the next round (the scheduler has no memory of `now`)
          }
          emit(out, "dump");
-         // inputs that run into the open finding F25 are kept out of the random stream (they are in corpus/C20)
-         if (trigger) {cs--; if (++dropped > 50*ncases) break; continue;}
          fprintf(out, "case %u\n%s", cs*tier.nshards + tier.shard, caseBuf.c_str());
       }
    }
